@@ -17,7 +17,7 @@ import (
 // so an edit of one of these functions in the Go source breaks a named proof.  The translator does no reasoning: anything
 // outside its small subset becomes an EOpaque/SOpaque node carrying the source text.
 
-var fnsToTranslate = []string{"calcEndtime", "killerSlot", "nextMoveWins", "closeToMate", "fullMovesToMate", "pliesToMate", "terminalNodeScore"}
+var fnsToTranslate = []string{"calcEndtime", "killerSlot", "nextMoveWins", "closeToMate", "fullMovesToMate", "pliesToMate", "terminalNodeScore", "abs", "min", "max", "moveIndex"}
 
 func coqStr(s string) string {
 	return "\"" + strings.ReplaceAll(s, "\"", "\"\"") + "\""
